@@ -393,7 +393,11 @@ func c12Scens(tier string) []c12Scen {
 					// with Close at every scheduling point
 					out = append(out, c12Scen{Stream: stream, Fault: fault, At: at, Closers: 1, Bound: bound, NSeg: nseg, Policy: policy})
 					if (fault == "none" && (policy == 0 || tier == "thorough")) || (tier == "thorough" && at%3 == 0) {
-						out = append(out, c12Scen{Stream: stream, Fault: fault, At: at, Closers: 2, Bound: bound + 1, NSeg: nseg, Policy: policy})
+						b2 := bound + 1
+						if tier == "thorough" {
+							b2 = bound // two closers at bound 3 need more memory and time than the tier has
+						}
+						out = append(out, c12Scen{Stream: stream, Fault: fault, At: at, Closers: 2, Bound: b2, NSeg: nseg, Policy: policy})
 					}
 				}
 			}
